@@ -27,7 +27,8 @@ ASSUMPTIONS = ['the real SelectorEventLoop/_UnixReadPipeTransport run on the rea
                'histories stop at the first EOF, as the statement does; deviation bound 1 (quick) / 2 (thorough)']
 EXHAUSTIVE = False      # complete only within the deviation bound, see BOUND_NOTE
 BOUND_NOTE = 'all schedules with at most 1 (quick) / 2 (thorough) non-default placements of peer actions are enumerated completely; schedules with more deviations are not explored'
-REQUIRED_FLAGS = {'async_match': 1, 'async_timeout': 1, 'async_eof': 1, 'mixed': 1, 'data_between_calls': 1}
+REQUIRED_FLAGS = {'async_match': 1, 'async_timeout': 1, 'async_eof': 1, 'mixed': 1, 'data_between_calls': 1,
+                  'awaited_window_smaller_than_pending': 1}
 
 B = 0.25
 
@@ -60,6 +61,15 @@ HISTORIES.append((_calls[0], _ZW))
 for c1 in _calls[:6]:
     for c2 in _calls[:7]:
         HISTORIES.append((c1, c2))
+# a search window on awaited calls (text may arrive while nobody waits, with a window's worth already pending)
+_W1 = ('a', 'expect', ('ab',), 0, 2)
+_W2 = ('a', 'expect', ('ab',), 0.3, 2)
+_W3 = ('s', 'expect', ('ab',), 0.3, 2)
+_W4 = ('a', 'expect_exact', ('b', 'a\xe9'), 0.3, 1)
+for h in ((_W2,), (_W1, _W2), (_W1, _W3), (_W1, _W1, _W2), (_W4,), (_W1, _W4), (_W2, _W2), (_W1, ('a', 'expect', ('ab',), 0.3, None)),
+          # a window's worth pending after a timed-out call, then a poll during which more text lands
+          (_W2, _W1), (('a', 'expect', ('ab',), 0.3), _W1), (_W3, _W1), (_W2, _W1, _W3)):
+    HISTORIES.append(h)
 TRIPLES = [(_calls[0], _calls[1], _calls[0]), (_calls[1], _calls[0], _calls[4]), (_calls[2], _calls[0], _calls[5]),
            (_calls[3], _calls[3], _calls[0]), (_calls[0], _calls[0], _calls[8])]
 
@@ -72,7 +82,7 @@ def streams(maxn):
 
 def bounds(tier):
     return dict(alphabet='a b e-acute', max_stream=3 if tier == 'quick' else 4, max_cuts=1 if tier == 'quick' else 2,
-                histories=len(HISTORIES) + len(TRIPLES), deviation_bound=1 if tier == 'quick' else 2, modes=['bytes', 'utf-8'])
+                histories=len(HISTORIES) + len(TRIPLES), deviation_bound='1 (quick; 2 for the search-window histories) / 2 (thorough)', modes=['bytes', 'utf-8'])
 
 
 def tasks(tier):
@@ -110,7 +120,10 @@ def run_case(ch, mode, history, raw, cuts):
         S = (lambda s: s.encode('utf-8')) if enc is None else (lambda s: s)
         pending = S('')
         flags = set()
-        for (how, entry, names, T) in history:
+        for hcall in history:
+            how, entry, names, T = hcall[:4]
+            W = hcall[4] if len(hcall) > 4 else None        # a search window for this call
+            kw_w = {'searchwindowsize': W} if len(hcall) > 4 else {}
             pats = [MARK[n] if n in MARK else S(n) for n in names]
             kind = 'exact' if entry == 'expect_exact' else 're'
             refpats = [p if p in (EOF, TIMEOUT) else (re.compile(p, re.DOTALL) if kind == 're' else p) for p in pats]
@@ -124,10 +137,10 @@ def run_case(ch, mode, history, raw, cuts):
 
             def call(async_):
                 if entry == 'expect':
-                    return sp.expect(pats, timeout=T, async_=async_)
+                    return sp.expect(pats, timeout=T, async_=async_, **kw_w)
                 if entry == 'expect_exact':
-                    return sp.expect_exact(pats, timeout=T, async_=async_)
-                return sp.expect_list([p if p in (EOF, TIMEOUT) else re.compile(p, re.DOTALL) for p in pats], timeout=T, async_=async_)
+                    return sp.expect_exact(pats, timeout=T, async_=async_, **kw_w)
+                return sp.expect_list([p if p in (EOF, TIMEOUT) else re.compile(p, re.DOTALL) for p in pats], timeout=T, async_=async_, **kw_w)
             out = None
             try:
                 if how == 's':
@@ -181,7 +194,34 @@ def run_case(ch, mode, history, raw, cuts):
                 viol = ('late', '%s call with timeout %r took %.3fs' % ('awaited' if how == 'a' else 'blocking', T, elapsed))
                 break
             end = [TIMEOUT] if okind == 'TIMEOUT' else [EOF] if okind == 'EOF' else []
-            ref = refs.naive_expect(kind, refpats, pending, chunks + end, None)
+            ref = refs.naive_expect(kind, refpats, pending, chunks + end, W)
+            if W and len(pending) >= W and how == 'a':
+                flags.add('awaited_window_smaller_than_pending')
+            if W and len(chunks) > 1:
+                # With a window the verdict depends on how the low-level reads were gathered before a search
+                # (the blocking pty read gathers everything readable, the awaited form searches text that landed
+                # while its timeout was firing in one go): the implementation must agree with the reference for
+                # SOME gathering of consecutive chunks.
+                impl = (out[1], sp.before, sp.after) if okind == 'match' else okind
+                for mask in range(1, 1 << (len(chunks) - 1)):
+                    groups, sizes, cur, n_ = [], [], chunks[0], 1
+                    for i_ in range(1, len(chunks)):
+                        if (mask >> (i_ - 1)) & 1:
+                            cur, n_ = cur + chunks[i_], n_ + 1
+                        else:
+                            groups.append(cur); sizes.append(n_); cur, n_ = chunks[i_], 1
+                    groups.append(cur); sizes.append(n_)
+                    r2 = refs.naive_expect(kind, refpats, pending, groups + end, W)
+                    same = ((r2['outcome'] == 'match' and impl == (r2['index'], r2['before'], r2['after'])) if okind == 'match'
+                            else r2['outcome'] != 'match')
+                    agrees_now = ((ref['outcome'] == 'match' and impl == (ref['index'], ref['before'], ref['after'])) if okind == 'match'
+                                  else ref['outcome'] != 'match')
+                    if same and not agrees_now:
+                        ref = dict(r2)
+                        if r2['outcome'] == 'match':
+                            ref['consumed'] = sum(sizes[:r2['consumed']])
+                        flags.add('gathered_reads_under_window')
+                        break
             if okind == 'match':
                 rec['buffer'] = sp.buffer
                 if ref['outcome'] != 'match':
@@ -275,6 +315,8 @@ def run_task(task):
     hist = (HISTORIES + TRIPLES)[task['h']]
     mode = task['mode']
     bound = 1 if q else 2
+    if any(len(c) > 4 for c in hist):
+        bound = 2       # two arrivals at chosen moments are the point of the window histories (they are few)
     maxcuts = 1 if q else 2
     for text in streams(3 if q else 4):
         raw = text.encode('utf-8')
